@@ -76,11 +76,9 @@ func (v *VUrl) validate(value string) *VUrl {
 	if queryIndex != -1 {
 		urlQuery = decUrl[queryIndex+1:]
 	}
-	if urlQuery == "" {
-		return v
-	}
 
 	var key, val string
+	seenKeys := make(map[string]bool, len(v.ruleObj))
 	for _, query := range strings.Split(urlQuery, "&") {
 		key = ""
 		val = ""
@@ -103,6 +101,7 @@ func (v *VUrl) validate(value string) *VUrl {
 			}
 		}
 
+		seenKeys[key] = true
 		validNames := v.ruleObj.Get(key)
 		if validNames == "" {
 			continue
@@ -151,6 +150,14 @@ func (v *VUrl) validate(value string) *VUrl {
 			}
 			fn(v.errBuf, validName, "", key, reflect.ValueOf(val))
 		}
+	}
+
+	// a key that has a required rule but is absent from the query is reported as well
+	for key, validNames := range v.ruleObj {
+		if key == "" || seenKeys[key] {
+			continue
+		}
+		v.errBuf.WriteString(missingRequiredErr(key, validNames))
 	}
 	return v
 }
